@@ -170,7 +170,13 @@ theorem drained_exit_handled_everything (progs : List (List Op)) (sched : List T
   have hq : g.sh.queue = [] := (List.append_eq_nil_iff.mp hb).2
   have hf : g.sh.flushed = [] := (List.append_eq_nil_iff.mp hb).1
   refine ⟨?_, hq, hf⟩
-  rw [Q.handled_eq, Q.conserve, hq, hf]; simp
+  have ht : g.sh.taken = none := by
+    cases ht : g.sh.taken with
+    | none => rfl
+    | some i => have := Q.taken_live (by simp [ht]); simp [Q.stopped h] at this
+  have he := Q.handled_eq
+  rw [Q.marker_no_drop h, ht] at he
+  rw [Q.conserve, hq, hf]; simpa using he.symm
 
 /-- (6) *A repeated drain is harmless*: once the marker bit is set (some drain completed) and the
 status is at least `Draining`, a whole further `drain()` — its three atomic steps, run from any
@@ -275,7 +281,7 @@ example : (run (init [[.send [.drain] false]]) (List.replicate 15 (.t 0))).sh.en
       [⟨.drain, 0, .ok, false, []⟩, ⟨.send, 0, .ok, false, []⟩] := by decide
 
 /-- the hypothesis of `oracle_holds_of_model` is satisfiable: the example, after the receiver ran -/
-example : endState (run (init exampleProgs) (exampleSched ++ [.recv, .recv, .setStatus 5, .rxClose, .rxFlush])) = true := by
+example : endState (run (init exampleProgs) (exampleSched ++ [.recv, .recv, .recv, .setStatus 5, .rxClose, .rxFlush])) = true := by
   decide
 
 /-- hypotheses of `send_started_after_close_is_rejected` are satisfiable: after the drainer's close
